@@ -39,10 +39,45 @@ func runC07(p *Program, e *Engine, r *Result, tier string) {
 		return
 	}
 	c07Guarded(a)
+	c07Published(a, "C07.2")
 	c07Returns(a)
 	c07Deref(a, "C07.4")
 	c05R1(a, "C07.5")
 	c05R4(a, "C07.5")
+}
+
+// c07Published: the constructor starts the reader goroutine only after the backend is completely built: no store to a
+// field of the backend (or of the structs it holds) follows the go statement on any path of the constructor.
+func c07Published(a *An, rule string) {
+	ro := a.Ro
+	w := a.walk(ro.Ctor)
+	var goV *Visit
+	for _, v := range w.Visits {
+		if _, ok := v.Instr.(*ssa.Go); ok && goV == nil {
+			goV = v
+		}
+	}
+	if goV == nil {
+		a.R.ob(rule, "ctor:published-complete", "the constructor starts the reader", a.P.pos(ro.Ctor.Pos()), false, "no go statement in the constructor")
+		return
+	}
+	var late []string
+	for _, v := range w.Visits {
+		if v.Seq <= goV.Seq {
+			continue
+		}
+		st, ok := v.Instr.(*ssa.Store)
+		if !ok {
+			continue
+		}
+		if fa, ok := st.Addr.(*ssa.FieldAddr); ok {
+			if f := fieldOf(fa); f != nil && ro.StructOf[f] != nil && ro.StructOf[f] != ro.Watcher {
+				late = append(late, a.P.instrPos(st)+" "+fieldStr(ro, f))
+			}
+		}
+	}
+	a.R.ob(rule, "ctor:published-complete", "every field of the backend is set before the reader goroutine is started (the reader and the first API calls never see a half-built backend)", a.P.instrPos(goV.Instr), len(late) == 0,
+		"stores after the go statement: "+fmtList(late))
 }
 
 type access struct {
@@ -356,10 +391,6 @@ func c07Deref(a *An, rule string) {
 			}
 			lkPath := bctx.path(lk)
 			key := shortFn(root) + ":" + shortFn(fa.Parent()) + ":deref(" + stripIDs(lkPath) + ")"
-			if seen[key] {
-				continue
-			}
-			seen[key] = true
 			// guarded by ¬nil(lookup) or ok(lookup)?
 			guarded, _ := v.Cond.everyConj(func(c Conj) bool {
 				return c.has(func(l Lit) bool {
@@ -401,6 +432,10 @@ func c07Deref(a *An, rule string) {
 			if !guarded {
 				wit = "dereferenced without a nil/ok test under condition " + stripIDs(v.Cond.String())
 			}
+			if guarded && seen[key] {
+				continue // every dereference is judged; those that hold are reported once per key
+			}
+			seen[key] = true
 			a.R.ob(rule, key, "a table lookup keyed by a kernel- or caller-supplied value must be nil/ok-tested before it is dereferenced (the watch may have been removed concurrently)",
 				a.P.instrPos(fa), guarded, wit)
 		}
